@@ -300,7 +300,10 @@ impl GlobalCollector {
         }
 
         for DropCollect { collect_id } in self.drop_collects.drain(..) {
-            self.active_collectors.remove(&collect_id);
+            // Cancelling is only supported in cancelable mode; otherwise the trace is kept.
+            if self.config.cancelable {
+                self.active_collectors.remove(&collect_id);
+            }
         }
 
         for SubmitSpans {
